@@ -130,6 +130,14 @@ CHECKS.update({
             "(normal exit, nested, exit by an exception raised in module k), that a forward outside calibration leaves every parameter / buffer / scale / qtype digest and its input unchanged, and that repeated evaluation is bit-identical.",
             "disable_extensions is outside the statement.",
             "DESIGN.md 3.7, 5/C13"),
+    "C15": ("AWQ.tla, Trace_AWQ.tla, Exact.tla",
+            "TLC model check of the layout index functions + complete characterisation of the real packers' position permutations + TLC trace validation",
+            "AWQ.tla composes the reshape/permute chains of pack (v1, with/without AWQ order), pack_v2, unpack_v2 and of the reference packer literally as index functions; TLC checks Bijective, "
+            "UnpackInvertsPack and V2EqualsReference for every position of every shape in the bound, and the algebra of the optimised representation (RepresentationsAgree, BackAndForth). "
+            "The real packers' permutations are recovered completely per shape by packing four index-coded matrices (quanto and external/awq), and TLC validates bijectivity, the round trip and "
+            "bit-identity of quanto's v2 map with the reference's; float16 group-128 weights are converted standard -> optimised -> standard and compared (values within one float16 rounding, codes / scales / zero-points / state_dict restored).",
+            "The AWQ modules run on CPU with assert statements stripped; the CUDA gemm kernel is out of reach and not part of the statement.",
+            "DESIGN.md 3.4, 5/C15"),
 })
 
 NOT_YET = {}
